@@ -580,6 +580,11 @@ def run_check(prop, tier, seed, replay=None, jobs=None):
         'assumptions': [lane.LEVEL_NOTE] if lane.LEVEL_NOTE else [],
         'wall_s': round(time.time() - t0, 2), 'violations': len(violations),
     }
+    if not lane.THEOREMS:
+        # no property theorem audited (lane under construction): only the exploration-style keys apply
+        for k in ('obligations', 'discharged', 'checker_cmd'):
+            evidence['coverage'].pop(k, None)
+        evidence['level'] = 'exploration'
     if not replay:
         write_json(os.path.join(os.environ.get('VERIF_EVIDENCE_DIR') or os.path.join(VERIF, 'evidence'), f'{prop}.json'), evidence)
 
